@@ -16,6 +16,7 @@ Notation outcome := (@outcome result).
 Notation step := (step sm_update).
 Notation run := (run sm_update).
 Notation run_state := (run_state sm_update).
+Notation init_state := (@Session.init_state S result).
 
 (* ---------------------------------------------------------------- *)
 (* vocabulary used by the theorems                                   *)
@@ -438,6 +439,9 @@ Proof.
   intros. split; [split|]; cbn; [constructor|lia|constructor].
 Qed.
 
+Lemma inv_reachable_proved : forall cap (s0 : S) es, inv (run_state (init_state cap s0) es).
+Proof. intros. apply run_inv, init_inv. Qed.
+
 (* every cached series id lies above the acknowledged watermark, in every
    reachable state; hence clearTo's `to == RespondedUpTo+1` shortcut is exact *)
 Lemma history_above_watermark_proved : forall cap (s0 : S) es s,
@@ -513,6 +517,531 @@ Proof.
     { intros H; inversion H; subst. left. repeat split; auto; discriminate. }
     destruct (sm_update sm (e_cmd e)) as [sm' r] eqn:U. unfold add_response. rewrite HG.
     intros H; inversion H; subst. right. exists r. auto.
+Qed.
+
+(* ---------------------------------------------------------------- *)
+(* save / load                                                       *)
+
+Lemma nodup_ids_rotate : forall (a b : list session) x,
+  NoDup (ids ((a ++ [x]) ++ b)) -> NoDup (ids (a ++ x :: b)).
+Proof. intros a b x H. now rewrite <- app_assoc in H. Qed.
+
+Lemma save_walk_gen : forall (a b out : list session),
+  NoDup (ids (a ++ b)) ->
+  save_walk (map s_client (rev a)) (b ++ a) out = Some (out ++ rev a, a ++ b).
+Proof.
+  induction a as [|x a' IH] using rev_ind; intros b out ND.
+  - cbn. now rewrite !app_nil_r.
+  - rewrite rev_app_distr. cbn [rev app map save_walk].
+    rewrite <- app_assoc in ND. cbn [app] in ND.
+    assert (F : lru_find (s_client x) (b ++ a' ++ [x]) = Some (x, b ++ a')).
+    { rewrite app_assoc. replace (b ++ a') with ((b ++ a') ++ []) at 2 by apply app_nil_r.
+      apply lru_find_split; auto.
+      apply nodup_remove_mid in ND. destruct ND as [_ Hn]. rewrite ids_app in *.
+      intros G. apply Hn. apply in_app_or in G. apply in_or_app. tauto. }
+    rewrite F. specialize (IH (x :: b) (out ++ [x])). cbn [app] in IH. rewrite IH; auto.
+    now rewrite <- !app_assoc.
+Qed.
+
+(* saving walks the table through Get, yet leaves its order exactly as it was,
+   and writes the sessions least-recently-used first *)
+Lemma save_preserves_order_proved : forall (t : table),
+  NoDup (ids (t_list t)) ->
+  save t = Some ((t_cap t, rev (t_list t)), t).
+Proof.
+  intros [cap l] ND. unfold save. cbn [t_list t_cap] in *.
+  pose proof (save_walk_gen l [] [] ) as H. cbn [app] in H. rewrite app_nil_r in H.
+  rewrite H; auto.
+Qed.
+
+Lemma load_gen : forall cap (a b : list session),
+  NoDup (ids (a ++ b)) -> N.of_nat (length (a ++ b)) <= cap ->
+  fold_left (fun t s => lru_add s t) (rev a) (mkTable cap b) = mkTable cap (a ++ b).
+Proof.
+  induction a as [|x a' IH] using rev_ind; intros b ND LE; [reflexivity|].
+  rewrite rev_app_distr. cbn [rev app fold_left].
+  rewrite <- app_assoc in ND, LE. cbn [app] in ND, LE.
+  assert (A : lru_add x (mkTable cap b) = mkTable cap (x :: b)).
+  { unfold lru_add. cbn [t_list t_cap].
+    assert (Fn : lru_find (s_client x) b = None).
+    { apply lru_find_none. apply nodup_remove_mid in ND. destruct ND as [_ Hn].
+      rewrite ids_app in Hn. intros G. apply Hn. apply in_or_app. now right. }
+    rewrite Fn. f_equal. apply takeN_all. rewrite app_length in LE. cbn in *. lia. }
+  rewrite A, IH; auto. now rewrite <- app_assoc.
+Qed.
+
+(* loading what save wrote rebuilds the same table: same sessions, same LRU
+   order (hence the same future eviction victims), same capacity *)
+Lemma load_save_id_proved : forall (t : table) sv t',
+  NoDup (ids (t_list t)) -> N.of_nat (length (t_list t)) <= t_cap t -> 0 < t_cap t ->
+  save t = Some (sv, t') -> t' = t /\ load sv = Some t.
+Proof.
+  intros [cap l] sv t' ND LE POS H. rewrite save_preserves_order_proved in H by auto.
+  inversion H; subst. split; auto. unfold load. cbn [fst snd t_cap t_list] in *.
+  destruct (cap =? 0) eqn:E; [lia|]. f_equal. unfold empty_table.
+  pose proof (load_gen cap l []) as G. rewrite app_nil_r in G. apply G; auto.
+Qed.
+
+(* ---------------------------------------------------------------- *)
+(* at most once                                                      *)
+
+(* Ghost instrumentation (specification only; the model has no such state):
+   a user-SM invocation caused by a session-managed proposal is tagged with
+   (client id, registration epoch of that client, series id), where the epoch
+   counts the successful registrations of that client id so far. *)
+Definition tag : Type := (N * nat * N)%type.
+
+Definition bump (ep : N -> nat) (c : N) : N -> nat :=
+  fun x => if x =? c then Datatypes.S (ep x) else ep x.
+
+Fixpoint tagged_calls (ep : N -> nat) (st : state) (es : list entry) : list tag :=
+  match es with
+  | [] => []
+  | e :: r =>
+    let (st', o) := step st e in
+    match o with
+    | ORegistered c => tagged_calls (bump ep c) st' r
+    | OApplied _ =>
+      match classify e with
+      | KUpdate => (e_client e, ep (e_client e), e_series e) :: tagged_calls ep st' r
+      | _ => tagged_calls ep st' r
+      end
+    | _ => tagged_calls ep st' r
+    end
+  end.
+
+Definition sm_calls_tagged (cap : N) (s0 : S) (es : list entry) : list tag :=
+  tagged_calls (fun _ => 0%nat) (init_state cap s0) es.
+
+Definition covered (s : session) (k : N) : Prop :=
+  k <= s_responded s \/ hist_get k (s_history s) <> None.
+
+Definition ginv (st : state) (ep : N -> nat) (tr : list tag) : Prop :=
+  (forall c e k, In (c, e, k) tr -> (e <= ep c)%nat) /\
+  (forall s, In s (t_list (st_tab st)) ->
+     forall k, In (s_client s, ep (s_client s), k) tr -> covered s k).
+
+Lemma ginv_same_elems : forall (st st' : state) ep tr,
+  (forall s, In s (t_list (st_tab st')) -> In s (t_list (st_tab st))) ->
+  ginv st ep tr -> ginv st' ep tr.
+Proof. intros st st' ep tr H [A B]. split; auto. Qed.
+
+Lemma in_ids : forall (s : session) l, In s l -> In (s_client s) (ids l).
+Proof. intros. unfold ids. now apply in_map. Qed.
+
+Definition step_ginv_post (e : entry) (o : outcome) (st' : state) ep tr : Prop :=
+  match o with
+  | ORegistered c => ginv st' (bump ep c) tr
+  | OApplied _ =>
+    match classify e with
+    | KUpdate => ~ In (e_client e, ep (e_client e), e_series e) tr /\
+                 ginv st' ep ((e_client e, ep (e_client e), e_series e) :: tr)
+    | _ => ginv st' ep tr
+    end
+  | _ => ginv st' ep tr
+  end.
+
+Lemma step_ginv : forall st e st' o ep tr,
+  inv st -> ginv st ep tr -> step st e = (st', o) -> step_ginv_post e o st' ep tr.
+Proof.
+  intros [t sm] e st' o ep tr [[ND LE] HA] GI. unfold Session.step. cbn [st_tab st_sm] in *.
+  destruct (classify e) eqn:K.
+  - intros H; inversion H; subst. exact GI.
+  - intros H; inversion H; subst. exact GI.
+  - (* register *)
+    unfold register. destruct (lru_get (e_client e) t) as [[s t']|] eqn:G; intros H; inversion H; subst; cbn.
+    + eapply ginv_same_elems; [|exact GI]. cbn [st_tab].
+      destruct (lru_get_spec _ _ _ _ G) as (l1 & l2 & E & -> & _ & _). rewrite E. cbn [t_list].
+      intros x [Hx|Hx]; [subst; apply in_or_app; right; now left|].
+      apply in_app_or in Hx. apply in_or_app. destruct Hx; [now left|right; now right].
+    + apply lru_get_none in G. pose proof G as G'. apply find_session_none in G'.
+      destruct GI as [A B]. split.
+      * intros c e0 k Hin. specialize (A _ _ _ Hin). unfold bump. destruct (c =? e_client e); lia.
+      * cbn [st_tab]. unfold lru_add. cbn [s_client new_session]. unfold find_session in G.
+        destruct (lru_find (e_client e) (t_list t)) as [[? ?]|]; [discriminate|]. cbn [t_list].
+        intros s Hs k Hk. destruct (takeN_prefix (new_session (e_client e) :: t_list t) (t_cap t)) as [tl Ht].
+        assert (Hs' : In s (new_session (e_client e) :: t_list t)) by (rewrite Ht; apply in_or_app; now left).
+        destruct Hs' as [<-|Hs'].
+        -- cbn [s_client new_session] in Hk. unfold bump in Hk. rewrite N.eqb_refl in Hk.
+           specialize (A _ _ _ Hk). lia.
+        -- assert (s_client s <> e_client e) by (intros Q; apply G'; rewrite <- Q; now apply in_ids).
+           unfold bump in Hk. destruct (s_client s =? e_client e) eqn:Q; [apply N.eqb_eq in Q; congruence|].
+           eapply B; eauto.
+  - (* unregister *)
+    unfold unregister. destruct (lru_get (e_client e) t) as [[s t']|] eqn:G; intros H; inversion H; subst; cbn; [|exact GI].
+    eapply ginv_same_elems; [|exact GI]. cbn [st_tab].
+    destruct (lru_get_spec _ _ _ _ G) as (l1 & l2 & E & -> & Hc & _). rewrite E.
+    unfold lru_del. cbn [t_list t_cap]. rewrite <- Hc, lru_find_head. cbn [t_list].
+    intros x Hx. apply in_app_or in Hx. apply in_or_app. destruct Hx; [now left|right; now right].
+  - (* noop session *)
+    destruct (sm_update sm (e_cmd e)) as [sm' r]. intros H; inversion H; subst. cbn. rewrite K. exact GI.
+  - (* update *)
+    unfold update_session. cbn [st_tab st_sm].
+    destruct (lru_get (e_client e) t) as [[s0 t1]|] eqn:G; [|intros H; inversion H; subst; exact GI].
+    destruct (lru_get_spec _ _ _ _ G) as (l1 & l2 & E & -> & Hc & Hn).
+    rewrite E in ND, HA. destruct GI as [A B]. cbn [st_tab] in B. rewrite E in B.
+    assert (Hs0 : hist_above s0) by (apply Forall_app in HA; destruct HA as [_ HA]; now inversion HA).
+    assert (B0 : forall k, In (e_client e, ep (e_client e), k) tr -> covered s0 k).
+    { intros k Hk. apply (B s0); [apply in_or_app; right; now left| now rewrite Hc]. }
+    assert (Bo : forall s, In s (l1 ++ l2) -> s_client s <> e_client e /\
+                   forall k, In (s_client s, ep (s_client s), k) tr -> covered s k).
+    { intros s Hs. split.
+      - apply nodup_remove_mid in ND. destruct ND as [_ Hnn]. intros Q. apply Hnn. rewrite Hc, <- Q. now apply in_ids.
+      - apply B. apply in_app_or in Hs. apply in_or_app. destruct Hs; [now left|right; now right]. }
+    set (s1 := clear_to s0 (e_responded e)) in *.
+    assert (B1 : forall k, covered s0 k -> covered s1 k) by (intros; now apply clear_to_covered).
+    assert (Hc1 : s_client s1 = e_client e) by (subst s1; now rewrite clear_to_client).
+    (* outcomes that leave tr unchanged: the front becomes s1 *)
+    assert (KEEP : forall sm0, ginv (mkState (set_front s1 (mkTable (t_cap t) (s0 :: l1 ++ l2))) sm0) ep tr).
+    { intros sm0. rewrite set_front_cons. split; auto. cbn [st_tab t_list].
+      intros s [<-|Hs] k Hk.
+      - rewrite Hc1 in Hk. auto.
+      - destruct (Bo s Hs) as [_ Q]. auto. }
+    destruct (has_responded s1 (e_series e)) eqn:HR; [intros H; inversion H; subst; apply KEEP|].
+    destruct (hist_get (e_series e) (s_history s1)) eqn:HG; [intros H; inversion H; subst; apply KEEP|].
+    destruct (sm_update sm (e_cmd e)) as [sm' r]. unfold add_response. rewrite HG.
+    intros H; inversion H; subst. unfold step_ginv_post. rewrite K. split.
+    + intros Hin. destruct (B1 _ (B0 _ Hin)) as [Q|Q].
+      * unfold has_responded in HR. lia.
+      * congruence.
+    + rewrite set_front_cons. split.
+      * intros c e0 k [Q|Q]; [inversion Q; subst; lia|eauto].
+      * cbn [st_tab t_list s_client].
+        intros s [<-|Hs] k Hk; cbn [s_client s_responded s_history] in *.
+        -- rewrite Hc1 in Hk. destruct Hk as [Q|Q].
+           ++ inversion Q; subst. right. cbn. rewrite N.eqb_refl. discriminate.
+           ++ destruct (B1 _ (B0 _ Q)) as [W|W]; [now left|right].
+              cbn [s_history hist_get]. destruct (e_series e =? k); [discriminate|exact W].
+        -- destruct (Bo s Hs) as [Q1 Q2]. destruct Hk as [Q|Q]; [inversion Q; congruence|auto].
+Qed.
+
+Lemma tagged_calls_fresh : forall es st ep tr,
+  inv st -> ginv st ep tr ->
+  NoDup (tagged_calls ep st es) /\ (forall x, In x (tagged_calls ep st es) -> ~ In x tr).
+Proof.
+  induction es as [|e r IH]; intros st ep tr I GI; [split; [constructor|intros ? []]|].
+  cbn [tagged_calls]. destruct (step st e) as [st' o] eqn:ST.
+  pose proof (step_ginv _ _ _ _ _ _ I GI ST) as P.
+  assert (I' : inv st') by (replace st' with (fst (step st e)) by (now rewrite ST); now apply step_inv).
+  unfold step_ginv_post in P.
+  destruct o; try (apply IH; assumption).
+  destruct (classify e); try (apply IH; assumption).
+  destruct P as [Fr GI']. destruct (IH st' ep _ I' GI') as [N1 N2]. split.
+  - constructor; auto. intros Q. apply (N2 _ Q). now left.
+  - intros x [<-|Q]; auto. intros W. apply (N2 _ Q). now right.
+Qed.
+
+(* over ALL entry streams (any clients, any duplicates, any special ids, any
+   capacity): no (client, registration epoch, series id) reaches the user state
+   machine twice *)
+Lemma at_most_once_proved : forall cap (s0 : S) es, NoDup (sm_calls_tagged cap s0 es).
+Proof.
+  intros. unfold sm_calls_tagged.
+  apply (tagged_calls_fresh es (init_state cap s0) (fun _ => 0%nat) []).
+  - apply init_inv.
+  - split; [intros ? ? ? []|]. cbn. intros ? [].
+Qed.
+
+(* the tagged calls are exactly the OApplied outcomes of session-managed
+   proposals: the trace has one tag per such outcome, in order *)
+Lemma tagged_calls_complete_proved : forall es st ep,
+  length (tagged_calls ep st es) =
+  length (filter (fun p => match snd p, classify (fst p) with OApplied _, KUpdate => true | _, _ => false end)
+                 (combine es (snd (run st es)))).
+Proof.
+  induction es as [|e r IH]; intros st ep; [reflexivity|].
+  cbn [tagged_calls Session.run]. destruct (step st e) as [st' o] eqn:ST.
+  destruct (run st' r) as [st2 os] eqn:R. cbn [snd combine filter fst].
+  assert (Q : forall ep', length (tagged_calls ep' st' r) =
+     length (filter (fun p => match snd p, classify (fst p) with OApplied _, KUpdate => true | _, _ => false end)
+                 (combine r os))) by (intros; rewrite IH, R; reflexivity).
+  destruct o; auto. destruct (classify e); cbn; auto.
+Qed.
+
+(* ---------------------------------------------------------------- *)
+(* how one step changes the session of a client that stays registered *)
+
+Lemma find_session_skip : forall c (x : session) l1 l2,
+  s_client x <> c -> find_session c (l1 ++ x :: l2) = find_session c (l1 ++ l2).
+Proof.
+  induction l1 as [|y t IH]; cbn; intros l2 H.
+  - rewrite find_session_cons. destruct (s_client x =? c) eqn:E; auto. apply N.eqb_eq in E. congruence.
+  - rewrite !find_session_cons. destruct (s_client y =? c); auto.
+Qed.
+
+Definition push_response (s : session) (k : N) (r : result) : session :=
+  mkSession (s_client s) (s_responded s) ((k, r) :: s_history s).
+
+Lemma session_step : forall st e c s,
+  inv st -> lookup c st = Some s -> lookup c (fst (step st e)) <> None ->
+  exists s', lookup c (fst (step st e)) = Some s' /\
+    (s' = s \/
+     (classify e = KUpdate /\ e_client e = c /\
+      let s1 := clear_to s (e_responded e) in
+      (s' = s1 \/
+       exists r, s' = push_response s1 (e_series e) r /\
+                 has_responded s1 (e_series e) = false /\ hist_get (e_series e) (s_history s1) = None))).
+Proof.
+  intros [t sm] e c s [[ND LE] HA] L. unfold lookup, Session.step in *. cbn [st_tab st_sm] in *.
+  destruct (classify e) eqn:K; cbn [fst st_tab]; intros P; try (exists s; split; auto; fail).
+  - (* register *)
+    revert P. unfold register. destruct (lru_get (e_client e) t) as [[sd t']|] eqn:G; cbn [fst st_tab]; intros P.
+    + destruct (lru_get_spec _ _ _ _ G) as (l1 & l2 & E & -> & _ & _). rewrite E in *. cbn [t_list] in *.
+      exists s. split; auto. rewrite find_session_move_front; auto.
+    + apply lru_get_none in G. revert P. unfold lru_add. cbn [s_client new_session].
+      pose proof G as G'. unfold find_session in G'.
+      destruct (lru_find (e_client e) (t_list t)) as [[? ?]|]; [discriminate|]. cbn [t_list]. intros P.
+      destruct (find_session c (takeN (t_cap t) (new_session (e_client e) :: t_list t))) as [s'|] eqn:F; [|congruence].
+      exists s'. split; auto. left. apply find_session_takeN in F. rewrite find_session_cons in F.
+      cbn [s_client new_session] in F. destruct (e_client e =? c) eqn:Q.
+      * apply N.eqb_eq in Q. subst. congruence.
+      * congruence.
+  - (* unregister *)
+    revert P. unfold unregister. destruct (lru_get (e_client e) t) as [[sd t']|] eqn:G; cbn [fst st_tab]; intros P;
+      [|exists s; split; auto].
+    destruct (lru_get_spec _ _ _ _ G) as (l1 & l2 & E & -> & Hc & _). rewrite E in *.
+    revert P. unfold lru_del. cbn [t_list t_cap]. rewrite <- Hc, lru_find_head. cbn [t_list]. intros P.
+    destruct (N.eq_dec (s_client sd) c) as [Q|Q].
+    + exfalso. apply P. apply find_session_none. apply nodup_remove_mid in ND. rewrite <- Q. tauto.
+    + exists s. split; auto. now rewrite <- (find_session_skip c sd l1 l2 Q).
+  - (* noop session *)
+    destruct (sm_update sm (e_cmd e)). cbn in *. exists s. auto.
+  - (* update *)
+    revert P. unfold update_session. cbn [st_tab st_sm].
+    destruct (lru_get (e_client e) t) as [[s0 t1]|] eqn:G; cbn [fst st_tab]; intros P; [|exists s; split; auto].
+    pose proof (lru_get_find _ _ _ _ G) as F0.
+    destruct (lru_get_spec _ _ _ _ G) as (l1 & l2 & E & -> & Hc & _). rewrite E in *.
+    assert (OTHER : e_client e <> c -> forall s'' (sm0 : S), s_client s'' = e_client e ->
+              find_session c (t_list (st_tab (mkState (set_front s'' (mkTable (t_cap t) (s0 :: l1 ++ l2))) sm0))) = Some s).
+    { intros Q s'' sm0 Hc''. rewrite set_front_cons. cbn [st_tab t_list]. rewrite find_session_cons.
+      destruct (s_client s'' =? c) eqn:W; [apply N.eqb_eq in W; congruence|].
+      rewrite <- (find_session_skip c s0 l1 l2); auto. congruence. }
+    pose proof (clear_to_client s0 (e_responded e)) as Hc1.
+    destruct (N.eq_dec (e_client e) c) as [Q|Q].
+    + (* the client's own proposal *)
+      assert (s0 = s) by congruence. subst s0.
+      assert (HEAD : forall s'' (sm0 : S), s_client s'' = c ->
+                find_session c (t_list (st_tab (mkState (set_front s'' (mkTable (t_cap t) (s :: l1 ++ l2))) sm0))) = Some s'').
+      { intros s'' sm0 Hc''. rewrite set_front_cons. cbn [st_tab t_list]. rewrite find_session_cons.
+        apply N.eqb_eq in Hc''. now rewrite Hc''. }
+      destruct (has_responded (clear_to s (e_responded e)) (e_series e)) eqn:HR; cbn [fst].
+      { eexists. split; [apply HEAD; congruence|]. right. repeat split; auto. }
+      destruct (hist_get (e_series e) (s_history (clear_to s (e_responded e)))) eqn:HG; cbn [fst].
+      { eexists. split; [apply HEAD; congruence|]. right. repeat split; auto. }
+      destruct (sm_update sm (e_cmd e)) as [sm' r]. unfold add_response. rewrite HG. cbn [fst].
+      eexists. split; [apply HEAD; cbn; congruence|]. right. repeat split; auto. right. exists r. auto.
+    + destruct (has_responded (clear_to s0 (e_responded e)) (e_series e)); cbn [fst].
+      { exists s. split; auto. apply OTHER; auto. congruence. }
+      destruct (hist_get (e_series e) (s_history (clear_to s0 (e_responded e)))) eqn:HG; cbn [fst].
+      { exists s. split; auto. apply OTHER; auto. congruence. }
+      destruct (sm_update sm (e_cmd e)) as [sm' r]. unfold add_response. rewrite HG. cbn [fst].
+      exists s. split; auto. apply OTHER; auto. cbn. congruence.
+Qed.
+
+(* the session of client c is present after every entry of es *)
+Fixpoint present_along (c : N) (st : state) (es : list entry) : Prop :=
+  match es with
+  | [] => True
+  | e :: r => lookup c (fst (step st e)) <> None /\ present_along c (fst (step st e)) r
+  end.
+
+Definition cached (c k : N) (r : result) (st : state) : Prop :=
+  exists s, lookup c st = Some s /\ hist_get k (s_history s) = Some r /\ s_responded s < k.
+
+Definition acked (c k : N) (st : state) : Prop :=
+  exists s, lookup c st = Some s /\ k <= s_responded s.
+
+Lemma cached_along : forall es st c k r,
+  inv st -> cached c k r st -> present_along c st es ->
+  Forall (fun x => classify x = KUpdate -> e_client x = c -> e_responded x < k) es ->
+  cached c k r (run_state st es).
+Proof.
+  induction es as [|e t IH]; intros st c k r I C P F; [exact C|].
+  rewrite run_state_cons. destruct P as [P1 P2]. inversion F as [|? ? F1 F2]; subst.
+  apply IH; auto; [now apply step_inv|].
+  destruct C as (s & L & HG & HR).
+  destruct (session_step st e c s I L P1) as (s' & L' & [->|(K & Hc & D)]).
+  - exists s. auto.
+  - specialize (F1 K Hc). cbn zeta in D. destruct D as [->|(r' & -> & HR' & HG')].
+    + exists (clear_to s (e_responded e)). split; auto. split.
+      * apply clear_to_keeps; auto.
+      * rewrite clear_to_responded. lia.
+    + eexists. split; [exact L'|]. unfold push_response. cbn [s_history s_responded hist_get]. split.
+      * destruct (e_series e =? k) eqn:Q.
+        -- apply N.eqb_eq in Q. subst k. rewrite (clear_to_keeps s (e_responded e) (e_series e) r HG F1) in HG'. discriminate.
+        -- apply clear_to_keeps; auto.
+      * rewrite clear_to_responded. lia.
+Qed.
+
+Lemma acked_along : forall es st c k,
+  inv st -> acked c k st -> present_along c st es -> acked c k (run_state st es).
+Proof.
+  induction es as [|e t IH]; intros st c k I A P; [exact A|].
+  rewrite run_state_cons. destruct P as [P1 P2].
+  apply IH; auto; [now apply step_inv|].
+  destruct A as (s & L & HR).
+  destruct (session_step st e c s I L P1) as (s' & L' & [->|(K & Hc & D)]).
+  - exists s. auto.
+  - cbn zeta in D. destruct D as [->|(r' & -> & _ & _)]; eexists; (split; [exact L'|]);
+      unfold push_response; cbn [s_responded]; rewrite clear_to_responded; lia.
+Qed.
+
+Lemma lookup_lru_get : forall c (st : state) s, lookup c st = Some s ->
+  exists t1, lru_get c (st_tab st) = Some (s, t1).
+Proof.
+  unfold lookup, find_session, lru_get. intros c st s H.
+  destruct (lru_find c (t_list (st_tab st))) as [[x r]|]; [|discriminate]. inversion H; subst. eauto.
+Qed.
+
+(* a retry of a proposal that was applied with result r gets r again from the
+   session cache and the user state machine is not invoked — for as long as the
+   session stays registered and the client has not acknowledged that series id *)
+Lemma retry_returns_cached_proved : forall st e r st1 es e',
+  inv st -> classify e = KUpdate -> step st e = (st1, OApplied r) ->
+  present_along (e_client e) st1 es ->
+  Forall (fun x => classify x = KUpdate -> e_client x = e_client e -> e_responded x < e_series e) es ->
+  classify e' = KUpdate -> e_client e' = e_client e -> e_series e' = e_series e ->
+  e_responded e' < e_series e ->
+  exists st', step (run_state st1 es) e' = (st', OCached r) /\ st_sm st' = st_sm (run_state st1 es).
+Proof.
+  intros st e r st1 es e' I K ST P F K' Hc' Hs' Hr'.
+  assert (I1 : inv st1) by (replace st1 with (fst (step st e)) by (now rewrite ST); now apply step_inv).
+  assert (C1 : cached (e_client e) (e_series e) r st1).
+  { revert ST. destruct st as [t sm]. unfold Session.step. rewrite K. unfold update_session. cbn [st_tab st_sm].
+    destruct (lru_get (e_client e) t) as [[s0 t1]|] eqn:G; [|discriminate].
+    destruct (lru_get_spec _ _ _ _ G) as (l1 & l2 & E & -> & Hc & _).
+    destruct (has_responded (clear_to s0 (e_responded e)) (e_series e)) eqn:HR; [discriminate|].
+    destruct (hist_get (e_series e) (s_history (clear_to s0 (e_responded e)))) eqn:HG; [discriminate|].
+    destruct (sm_update sm (e_cmd e)) as [sm' r']. unfold add_response. rewrite HG. intros H; inversion H; subst.
+    eexists. unfold lookup. rewrite set_front_cons. cbn [st_tab t_list]. rewrite find_session_cons.
+    cbn [s_client]. rewrite clear_to_client. apply N.eqb_eq in Hc. rewrite Hc. split; [reflexivity|].
+    cbn [s_history s_responded hist_get]. rewrite N.eqb_refl. split; auto. unfold has_responded in HR. lia. }
+  pose proof (cached_along es st1 _ _ _ I1 C1 P F) as (s & L & HG & HR).
+  destruct (run_state st1 es) as [t2 sm2] eqn:R2.
+  unfold Session.step. rewrite K'. unfold update_session. cbn [st_tab st_sm].
+  rewrite <- Hc' in L. destruct (lookup_lru_get _ _ _ L) as [t1 G]. cbn [st_tab] in G. rewrite G.
+  assert (HR2 : has_responded (clear_to s (e_responded e')) (e_series e') = false).
+  { unfold has_responded. rewrite clear_to_responded. lia. }
+  rewrite HR2. rewrite Hs'. rewrite (clear_to_keeps s (e_responded e') (e_series e) r HG Hr').
+  eexists. split; reflexivity.
+Qed.
+
+(* every proposal records its RespondedTo in the session *)
+Lemma acknowledgement_recorded_proved : forall st e,
+  inv st -> classify e = KUpdate -> lookup (e_client e) st <> None ->
+  acked (e_client e) (e_responded e) (fst (step st e)).
+Proof.
+  intros [t sm] e I K P. unfold Session.step. rewrite K. unfold update_session. cbn [st_tab st_sm].
+  destruct (lookup (e_client e) (mkState t sm)) as [s|] eqn:L; [|congruence].
+  destruct (lookup_lru_get _ _ _ L) as [t1 G]. cbn [st_tab] in G. rewrite G.
+  destruct (lru_get_spec _ _ _ _ G) as (l1 & l2 & E & -> & Hc & _).
+  assert (HEAD : forall s'' (sm0 : S), s_client s'' = e_client e ->
+            lookup (e_client e) (mkState (set_front s'' (mkTable (t_cap t) (s :: l1 ++ l2))) sm0) = Some s'').
+  { intros s'' sm0 Hc''. unfold lookup. rewrite set_front_cons. cbn [st_tab t_list]. rewrite find_session_cons.
+    apply N.eqb_eq in Hc''. now rewrite Hc''. }
+  pose proof (clear_to_client s (e_responded e)) as Hc1.
+  assert (R1 : e_responded e <= s_responded (clear_to s (e_responded e))) by (rewrite clear_to_responded; lia).
+  destruct (has_responded (clear_to s (e_responded e)) (e_series e)); cbn [fst].
+  { eexists. split; [apply HEAD; congruence|auto]. }
+  destruct (hist_get (e_series e) (s_history (clear_to s (e_responded e)))) eqn:HG; cbn [fst].
+  { eexists. split; [apply HEAD; congruence|auto]. }
+  destruct (sm_update sm (e_cmd e)) as [sm' r]. unfold add_response. rewrite HG. cbn [fst].
+  eexists. split; [apply HEAD; cbn; congruence|auto].
+Qed.
+
+(* once the session has recorded an acknowledgement >= k, any (late) duplicate
+   with series id <= k is ignored: no result is reported and the user state
+   machine is untouched — for as long as the session stays registered *)
+Lemma acknowledged_duplicate_ignored_proved : forall st c k es e,
+  inv st -> acked c k st -> present_along c st es ->
+  classify e = KUpdate -> e_client e = c -> e_series e <= k ->
+  exists st', step (run_state st es) e = (st', OIgnored) /\ st_sm st' = st_sm (run_state st es).
+Proof.
+  intros st c k es e I A P K Hc Hs.
+  destruct (acked_along es st c k I A P) as (s & L & HR).
+  destruct (run_state st es) as [t2 sm2].
+  unfold Session.step. rewrite K. unfold update_session. cbn [st_tab st_sm].
+  rewrite <- Hc in L. destruct (lookup_lru_get _ _ _ L) as [t1 G]. cbn [st_tab] in G. rewrite G.
+  assert (HR2 : has_responded (clear_to s (e_responded e)) (e_series e) = true).
+  { unfold has_responded. rewrite clear_to_responded. lia. }
+  rewrite HR2. eexists. split; reflexivity.
+Qed.
+
+(* eviction: registering a new client in a full table drops the least recently
+   used session; that client's proposals are rejected from then on *)
+Lemma takeN_app_exact : forall {A} (a b : list A) n, N.of_nat (length a) = n -> takeN n (a ++ b) = a.
+Proof.
+  induction a as [|x r IH]; cbn; intros b n H.
+  - destruct b; auto. cbn. subst. reflexivity.
+  - destruct (n =? 0) eqn:E; [lia|]. f_equal. apply IH. lia.
+Qed.
+
+Lemma evicted_session_rejected_proved : forall st e l v,
+  inv st -> t_list (st_tab st) = l ++ [v] ->
+  N.of_nat (length (l ++ [v])) = t_cap (st_tab st) ->
+  classify e = KRegister -> lookup (e_client e) st = None ->
+  exists st1, step st e = (st1, ORegistered (e_client e)) /\
+    t_list (st_tab st1) = new_session (e_client e) :: l /\
+    lookup (s_client v) st1 = None /\
+    forall e', classify e' = KUpdate -> e_client e' = s_client v -> step st1 e' = (st1, ORejected).
+Proof.
+  intros [t sm] e l v [[ND LE] HA] E FULL K L. cbn [st_tab] in *.
+  unfold Session.step. rewrite K. cbn [st_tab st_sm]. unfold register.
+  pose proof L as L'. unfold lookup in L'. cbn [st_tab] in L'. apply lru_get_none in L'. rewrite L'.
+  eexists. split; [reflexivity|].
+  assert (T : t_list (lru_add (new_session (e_client e)) t) = new_session (e_client e) :: l).
+  { unfold lru_add. cbn [s_client new_session]. apply lru_get_none in L'. unfold find_session in L'.
+    destruct (lru_find (e_client e) (t_list t)) as [[? ?]|]; [discriminate|]. cbn [t_list].
+    rewrite E. change (new_session (e_client e) :: l ++ [v]) with ((new_session (e_client e) :: l) ++ [v]).
+    apply takeN_app_exact. rewrite app_length in FULL. cbn in *. lia. }
+  assert (V : lookup (s_client v) (mkState (lru_add (new_session (e_client e)) t) sm) = None).
+  { unfold lookup. cbn [st_tab]. rewrite T. apply find_session_none. cbn. intros [Q|Q].
+    - apply find_session_none in L. apply L. cbn [st_tab]. rewrite E, Q, ids_app. apply in_or_app. right. now left.
+    - rewrite E, ids_app in ND. cbn in ND. apply NoDup_remove_2 in ND. apply ND. rewrite app_nil_r. exact Q. }
+  split; [exact T|]. split; [exact V|].
+  intros e' K' Hc'. apply unknown_session_rejected_untouched_proved; auto. now rewrite Hc'.
+Qed.
+
+(* ---------------------------------------------------------------- *)
+(* snapshot / restart                                                *)
+
+Variable sm_save : S -> bytes.
+Variable sm_recover : bytes -> option S.
+Hypothesis sm_roundtrip : forall s, sm_recover (sm_save s) = Some s.
+
+Lemma snapshot_restore_id : forall (st : state),
+  inv st -> 0 < t_cap (st_tab st) ->
+  exists sn, snapshot sm_save st = Some (sn, st) /\ restore sm_recover sn = Some st.
+Proof.
+  intros [t sm] [[ND LE] _] POS. cbn [st_tab] in *.
+  unfold snapshot, restore. cbn [st_tab st_sm].
+  rewrite save_preserves_order_proved by auto.
+  eexists. split; [reflexivity|]. cbn [fst snd].
+  destruct (load_save_id_proved t _ _ ND LE POS (save_preserves_order_proved t ND)) as [_ L].
+  rewrite L, sm_roundtrip. reflexivity.
+Qed.
+
+(* snapshot at any cut point + restart from it + the rest of the log
+   = the uninterrupted run: same results, same final table (LRU order included),
+   same user state *)
+Lemma snapshot_cut_equiv_sessions_proved : forall cap (s0 : S) es1 es2,
+  0 < cap ->
+  let st1 := run_state (init_state cap s0) es1 in
+  exists sn, snapshot sm_save st1 = Some (sn, st1) /\
+  exists st1', restore sm_recover sn = Some st1' /\
+               run st1' es2 = run st1 es2 /\
+               run (init_state cap s0) (es1 ++ es2) =
+                 (fst (run st1' es2), snd (run (init_state cap s0) es1) ++ snd (run st1' es2)).
+Proof.
+  intros cap s0 es1 es2 POS st1.
+  destruct (snapshot_restore_id st1) as (sn & H1 & H2).
+  - apply run_inv, init_inv.
+  - destruct (table_wf_reachable_proved cap s0 es1) as (_ & _ & E). subst st1. rewrite E. auto.
+  - exists sn. split; auto. exists st1. repeat split; auto.
+    subst st1. clear. generalize (init_state cap s0). induction es1 as [|e r IH]; intros st.
+    + cbn. destruct (run st es2); auto.
+    + cbn [app Session.run]. rewrite run_state_cons. destruct (step st e) as [sta o]. cbn [fst].
+      rewrite IH. destruct (run sta r). cbn. reflexivity.
 Qed.
 
 End SessionProofs.
